@@ -8,7 +8,7 @@ namespace SpsdkVerif.CertBlock
 open SpsdkVerif SpsdkVerif.Spec
 open SpsdkVerif.Misc hiding Bytes
 open SpsdkVerif.Crypto (HashAlg CryptoOps CryptoLaws Bytes)
-open SpsdkVerif.Rkht (bind_ok pure_eq_ok)
+open SpsdkVerif.Rkht (bind_ok pure_eq_ok RootKeyRecord)
 
 theorem beDec_rev_spec' (l : Bytes) : beDec l.reverse < 256 ^ l.length ∧ beEnc l.length (beDec l.reverse) = l.reverse := by
   induction l with
@@ -258,5 +258,200 @@ theorem parseV1Block_inv (certOk : Bytes → Bool) (data : Bytes) (cb : CertBloc
           have e2 : rest.take 128 = ((data.drop 32).drop hd.certTableLength).take 128 := by
             rw [hd32, List.drop_left' hcl]
           rw [e1, e2, Nat.add_assoc, List.take_add, List.take_add, List.append_assoc]
+
+/-! ### root key record (certificate block v2.1) -/
+
+theorem splitN_length (m : Nat) : ∀ (k : Nat) (t : Bytes), (splitN m k t).length = k
+  | 0, _ => rfl
+  | k + 1, t => by simp only [splitN, List.length_cons, splitN_length m k]
+
+theorem splitN_flatten_take (m : Nat) : ∀ (k : Nat) (t : Bytes), (splitN m k t).flatten = t.take (m * k)
+  | 0, t => by simp [splitN]
+  | k + 1, t => by
+    have e : m * (k + 1) = m + m * k := by rw [Nat.mul_succ, Nat.add_comm]
+    rw [splitN, List.flatten_cons, splitN_flatten_take m k, e, List.take_add]
+
+def rkrLenAlgChk (v : Nat) : Bool :=
+  match lookupOr G.rkrParseHashLen v, Rkht.rkrHashAlgorithm v with
+  | .ok hl, .ok a => a.size == hl && decide (0 < hl)
+  | _, _ => true
+
+/-- curve nibble → hash length (parser table) and hash algorithm (`get_hash_algorithm`) agree whenever both lookups succeed -/
+theorem rkr_hashLen_alg (flags hl : Nat) (a : HashAlg) (h1 : lookupOr G.rkrParseHashLen (rkrCurve flags) = .ok hl)
+    (h2 : Rkht.rkrHashAlgorithm flags = .ok a) : a.size = hl ∧ 0 < hl := by
+  have hm : rkrCurve flags = flags % 16 := by
+    have : G.rkrParseCurveMask = 2 ^ 4 - 1 := rfl
+    simp only [rkrCurve, this, Nat.and_two_pow_sub_one_eq_mod]
+  rw [hm] at h1
+  have h2' : Rkht.rkrHashAlgorithm (flags % 16) = .ok a := by
+    simpa only [Rkht.rkrHashAlgorithm, Nat.mod_mod] using h2
+  have hlt : flags % 16 < 16 := Nat.mod_lt _ (by decide)
+  have key : ∀ v : Fin 16, rkrLenAlgChk v.val = true := by decide
+  have := key ⟨flags % 16, hlt⟩
+  simp only [rkrLenAlgChk, h1, h2', Bool.and_eq_true, beq_iff_eq, decide_eq_true_eq] at this
+  exact this
+
+/-- `RootKeyRecord.parse` accepted ARBITRARY bytes that are long enough for the record their own flags word announces
+    (4 + [count × hash length if count > 1] + 2 × hash length): re-exporting the parsed record gives exactly the bytes consumed -/
+theorem rkrParse_inv (c : CryptoOps) (b : Bytes) (r : RootKeyRecord) (n : Nat) (h : rkrParse c b = .ok (r, n)) (hl : Nat)
+    (hhl : lookupOr G.rkrParseHashLen (rkrCurve (leDec (b.take 4))) = .ok hl)
+    (hfull : 4 + (if rkrCount (leDec (b.take 4)) > 1 then hl * rkrCount (leDec (b.take 4)) else 0) + hl * 2 ≤ b.length) :
+    rkrExport r = .ok (b.take n) ∧ n ≤ b.length ∧ r.flags = leDec (b.take 4) ∧
+    n = 4 + (if rkrCount r.flags > 1 then hl * rkrCount r.flags else 0) + hl * 2 ∧ hl ≤ 64 := by
+  have p32 : (2 : Nat) ^ 32 = 256 ^ 4 := by decide
+  have hb4 : 4 ≤ b.length := by omega
+  have h4 : (b.take 4).length = 4 := by simp only [List.length_take]; omega
+  have hfl : leDec (b.take 4) < 256 ^ 4 := leDec_lt_w 4 _ h4
+  simp only [rkrParse, unpackLE_ok hb4, bind_ok, hhl] at h
+  cases ha : Rkht.rkrHashAlgorithm (leDec (b.take 4)) with
+  | error e => rw [ha] at h; cases h
+  | ok a =>
+    obtain ⟨has, hpos⟩ := rkr_hashLen_alg _ hl a hhl ha
+    have h64 : hl ≤ 64 := by rw [← has]; cases a <;> decide
+    rw [ha] at h
+    simp only [bind_ok] at h
+    by_cases hn : rkrCount (leDec (b.take 4)) > 1
+    · simp only [hn, ↓reduceIte] at h hfull
+      have htl : ((b.drop 4).take (hl * rkrCount (leDec (b.take 4)))).length = hl * rkrCount (leDec (b.take 4)) := by
+        simp only [List.length_take, List.length_drop]; omega
+      have hmod : ¬ (((b.drop 4).take (hl * rkrCount (leDec (b.take 4)))).length % hl ≠ 0) := by
+        rw [htl]; simp
+      have hdiv : ((b.drop 4).take (hl * rkrCount (leDec (b.take 4)))).length / hl = rkrCount (leDec (b.take 4)) := by
+        rw [htl]; exact Nat.mul_div_cancel_left _ hpos
+      simp only [rkhtV21Parse, has] at h
+      simp only [hmod, ↓reduceIte, hdiv, Rkht.rkhtInit, splitN_length] at h
+      by_cases hc4 : rkrCount (leDec (b.take 4)) > Rkht.G.rkhtMaxKeys
+      · simp only [hc4, ↓reduceIte] at h; cases h
+      · simp only [hc4, ↓reduceIte, bind_ok, pure_eq_ok, Except.ok.injEq, Prod.mk.injEq] at h
+        obtain ⟨hr, hnn⟩ := h
+        subst hr
+        have hex : Rkht.exportV21 (splitN hl (rkrCount (leDec (b.take 4))) ((b.drop 4).take (hl * rkrCount (leDec (b.take 4))))) =
+            (b.drop 4).take (hl * rkrCount (leDec (b.take 4))) := by
+          simp only [Rkht.exportV21, splitN_length, hn, ↓reduceIte, splitN_flatten_take]
+          rw [List.take_take, Nat.min_self]
+        have hpk : (((b.drop 4).drop (hl * rkrCount (leDec (b.take 4)))).take (hl * 2)).length = hl * 2 := by
+          simp only [List.length_take, List.length_drop]; omega
+        rw [hex, htl, hpk] at hnn
+        subst hnn
+        refine ⟨?_, by omega, rfl, by simp only [hn, ↓reduceIte], h64⟩
+        simp only [rkrExport, packLE_ok 4 _ hfl, bind_ok, pure_eq_ok, hex, leEnc_leDec_w 4 _ h4]
+        rw [List.take_add, List.take_add, List.drop_drop]
+    · simp only [hn, ↓reduceIte, Nat.add_zero] at h hfull
+      have hc1 : ¬ ((0 : Nat) + 1 > Rkht.G.rkhtMaxKeys) := by decide
+      simp only [Rkht.rkhtInit, List.length_cons, List.length_nil, hc1, ↓reduceIte, bind_ok, pure_eq_ok, Except.ok.injEq,
+        Prod.mk.injEq] at h
+      · obtain ⟨hr, hnn⟩ := h
+        subst hr
+        have hpk : ((b.drop 4).take (hl * 2)).length = hl * 2 := by
+          simp only [List.length_take, List.length_drop]; omega
+        have hex : Rkht.exportV21 [c.hash a ((b.drop 4).take (hl * 2))] = [] := by
+          simp [Rkht.exportV21]
+        rw [hex, hpk] at hnn
+        subst hnn
+        refine ⟨?_, by simp only [List.length_nil]; omega, rfl, by simp only [hn, ↓reduceIte, List.length_nil], h64⟩
+        simp only [rkrExport, packLE_ok 4 _ hfl, bind_ok, pure_eq_ok, hex, leEnc_leDec_w 4 _ h4, List.length_nil, List.append_nil]
+        rw [Nat.add_zero, List.take_add]
+
+/-! ### certificate block v2.1 without ISK certificate (CA flag set) -/
+
+theorem headerV21Parse_inv (data : Bytes) (major minor size : Nat) (h : headerV21Parse data = .ok (major, minor, size)) :
+    12 ≤ data.length ∧ data.take 12 = G.cbV21Magic ++ leEnc 2 minor ++ leEnc 2 major ++ leEnc 4 size ∧
+    major < 65536 ∧ minor < 65536 ∧ size < 2 ^ 32 := by
+  have p16 : (65536 : Nat) = 256 ^ 2 := by decide
+  have p32 : (2 : Nat) ^ 32 = 256 ^ 4 := by decide
+  by_cases hl : headerSizeV21 > data.length
+  · simp only [headerV21Parse, hl, ↓reduceIte] at h; cases h
+  have hl' : 12 ≤ data.length := by simp only [headerSizeV21] at hl; omega
+  have u (w off : Nat) (ho : off + w ≤ 12) : unpackLE w (data.drop off) = .ok (leDec ((data.drop off).take w), data.drop (off + w)) := by
+    rw [unpackLE_ok (by simp only [List.length_drop]; omega), List.drop_drop]
+  simp only [headerV21Parse, hl, ↓reduceIte, u 2 4 (by omega), u 2 (4 + 2) (by omega), u 4 (4 + 2 + 2) (by omega), bind_ok] at h
+  by_cases hs : data.take 4 = G.cbV21Magic
+  · simp only [hs, ne_eq, not_true_eq_false, ↓reduceIte, pure_eq_ok, Except.ok.injEq, Prod.mk.injEq] at h
+    obtain ⟨rfl, rfl, rfl⟩ := h
+    have len (w off : Nat) (ho : off + w ≤ 12) : ((data.drop off).take w).length = w := by
+      simp only [List.length_take, List.length_drop]; omega
+    refine ⟨hl', ?_, ?_, ?_, ?_⟩
+    · rw [leEnc_leDec_w 2 _ (len 2 4 (by omega)), leEnc_leDec_w 2 _ (len 2 (4 + 2) (by omega)),
+        leEnc_leDec_w 4 _ (len 4 (4 + 2 + 2) (by omega)), ← hs]
+      have e : (12 : Nat) = 4 + (2 + (2 + 4)) := rfl
+      rw [e]
+      simp only [List.take_add, List.drop_drop, List.append_assoc]
+    · rw [p16]; exact leDec_lt_w 2 _ (len 2 _ (by omega))
+    · rw [p16]; exact leDec_lt_w 2 _ (len 2 _ (by omega))
+    · rw [p32]; exact leDec_lt_w 4 _ (len 4 _ (by omega))
+  · simp only [hs, ne_eq, not_false_eq_true, ↓reduceIte] at h; cases h
+
+theorem rkrCount_le (flags : Nat) : rkrCount flags ≤ 15 := by
+  have e1 : G.rkrParseCountMask = 240 := rfl
+  have e2 : G.rkrParseCountShift = 4 := rfl
+  simp only [rkrCount, e1, e2, Nat.shiftRight_eq_div_pow]
+  have : flags &&& 240 ≤ 240 := Nat.and_le_right
+  omega
+
+/-- `CertBlockV21.parse` accepted ARBITRARY bytes whose root key record carries the CA flag (no ISK certificate follows) and is complete:
+    the parsed block has no ISK certificate and re-exporting it gives magic ‖ minor ‖ major ‖ recomputed size word ‖ the record bytes -
+    i.e. the first `12 + n` input bytes whenever the input's size word was `12 + n` -/
+theorem parseV21Block_ca_inv (c : CryptoOps) (pointOk : Bytes → Bool) (data : Bytes) (cb : CertBlockV21)
+    (h : parseV21Block c pointOk data = .ok cb) (hca : rkrCa (leDec ((data.drop 12).take 4)) = true) (hl : Nat)
+    (hhl : lookupOr G.rkrParseHashLen (rkrCurve (leDec ((data.drop 12).take 4))) = .ok hl)
+    (hfull : 12 + 4 + (if rkrCount (leDec ((data.drop 12).take 4)) > 1 then hl * rkrCount (leDec ((data.drop 12).take 4)) else 0) + hl * 2
+      ≤ data.length) :
+    ∃ n, cb.isk = none ∧ n ≤ (data.drop 12).length ∧
+      n = 4 + (if rkrCount cb.rkr.flags > 1 then hl * rkrCount cb.rkr.flags else 0) + hl * 2 ∧
+      exportV21Block cb = .ok (G.cbV21Magic ++ leEnc 2 cb.minor ++ leEnc 2 cb.major ++ leEnc 4 (12 + n) ++ (data.drop 12).take n) ∧
+      (leDec ((data.drop 8).take 4) = 12 + n → exportV21Block cb = .ok (data.take (12 + n))) := by
+  cases hh : headerV21Parse data with
+  | error e => simp only [parseV21Block, hh] at h; cases h
+  | ok p =>
+    obtain ⟨major, minor, size⟩ := p
+    obtain ⟨h12, htake, b1, b2, b3⟩ := headerV21Parse_inv data major minor size hh
+    simp only [parseV21Block, hh, bind_ok] at h
+    have e12 : headerSizeV21 = 12 := rfl
+    rw [e12] at h
+    cases hr : rkrParse c (data.drop 12) with
+    | error e => rw [hr] at h; cases h
+    | ok q =>
+      obtain ⟨r, n⟩ := q
+      have hfull' : 4 + (if rkrCount (leDec ((data.drop 12).take 4)) > 1 then hl * rkrCount (leDec ((data.drop 12).take 4)) else 0) + hl * 2
+          ≤ (data.drop 12).length := by simp only [List.length_drop]; omega
+      obtain ⟨hex, hn, hfl, hnv, hsz⟩ := rkrParse_inv c (data.drop 12) r n hr hl hhl hfull'
+      rw [hr] at h
+      simp only [bind_ok] at h
+      have hca' : rkrCa r.flags = true := by rw [hfl]; exact hca
+      simp only [hca', ↓reduceIte, pure_eq_ok, bind_ok, Except.ok.injEq] at h
+      subst h
+      have hnl : ((data.drop 12).take n).length = n := by simp only [List.length_take]; omega
+      have hcnt := rkrCount_le r.flags
+      have hnb : n ≤ 4 + 64 * 15 + 64 * 2 := by
+        rw [hnv]
+        split
+        · have : hl * rkrCount r.flags ≤ 64 * 15 := Nat.mul_le_mul hsz hcnt
+          omega
+        · omega
+      have p32 : (2 : Nat) ^ 32 = 256 ^ 4 := by decide
+      have p16 : (65536 : Nat) = 256 ^ 2 := by decide
+      have hexp : exportV21Block ⟨major, minor, r, none⟩ =
+          .ok (G.cbV21Magic ++ leEnc 2 minor ++ leEnc 2 major ++ leEnc 4 (12 + n) ++ (data.drop 12).take n) := by
+        have k1 := packLE_ok 2 minor (by rw [← p16]; exact b2)
+        have k2 := packLE_ok 2 major (by rw [← p16]; exact b1)
+        have k3 := packLE_ok 4 (12 + n) (by omega)
+        simp only [exportV21Block, hex, bind_ok, pure_eq_ok, hnl, headerV21Export, e12, List.length_nil, Nat.add_zero, k1, k2, k3,
+          List.append_nil]
+      refine ⟨n, rfl, hn, hnv, hexp, fun hsize => ?_⟩
+      have hw : leEnc 4 (12 + n) = (data.drop 8).take 4 := by
+        rw [← hsize]; exact leEnc_leDec_w 4 _ (by simp only [List.length_take, List.length_drop]; omega)
+      rw [hexp, hw]
+      have e : (12 : Nat) + n = 4 + (2 + (2 + 4)) + n := rfl
+      have hmm : G.cbV21Magic ++ leEnc 2 minor ++ leEnc 2 major = data.take 8 := by
+        have := congrArg (List.take 8) htake
+        rw [List.take_take] at this
+        have hlen : (G.cbV21Magic ++ leEnc 2 minor ++ leEnc 2 major).length = 8 := by
+          have : G.cbV21Magic.length = 4 := rfl
+          simp only [List.length_append, leEnc_len, this]
+        rw [List.take_left' hlen] at this
+        exact this.symm
+      rw [hmm]
+      have e2 : (12 : Nat) + n = 8 + (4 + n) := by omega
+      rw [e2, List.take_add, List.take_add, List.drop_drop, List.append_assoc]
 
 end SpsdkVerif.CertBlock
